@@ -64,6 +64,10 @@ class Evaluator:
         if k in CAST_KINDS:
             ck = n.get("ck")
             if ck == "LValueToRValue":
+                inner = f.strip(n["c"][0], casts=False)
+                if inner is not None and inner["k"] in ("ConditionalOperator", "BinaryOperator", "CompoundAssignOperator") or \
+                        (inner is not None and inner["k"] == "UnaryOperator" and inner.get("op") in ("++", "--")):
+                    return self.ev(inner)
                 key = self.lkey(n["c"][0])
                 if key in self.env:
                     return self.env[key]
